@@ -116,10 +116,42 @@ func nameShapesEntry() Entry {
 	}}
 }
 
+// bigNumberNamesEntry: definitions of the SORTED sections (types, comdats, named metadata) whose
+// names differ only in an embedded number that does not fit 64 bits (same digit count): their
+// printed order must not depend on anything but the names.
+func bigNumberNamesEntry() Entry {
+	return Entry{Name: "big-number-names", Build: func(f *Frag) {
+		nums := [][]string{
+			{"18446744073709551616", "18446744073709551617", "18446744073709551615"},
+			{"36893488147419103233", "36893488147419103232", "99999999999999999999"},
+			{"340282366920938463463374607431768211456", "340282366920938463463374607431768211455", "340282366920938463463374607431768211457"},
+		}[f.N("numbers", 3)]
+		switch f.N("section", 3) {
+		case 0:
+			for i, n := range nums {
+				f.TopLine("%%%st.%s = type { [%d x i8] }", f.P, n, i+1)
+				f.TopLine("@%sg%d = global %%%st.%s zeroinitializer", f.P, i, f.P, n)
+			}
+		case 1:
+			for i, n := range nums {
+				f.TopLine("$%sc.%s = comdat any", f.P, n)
+				f.TopLine("@%sg%d = global i32 %d, comdat($%sc.%s)", f.P, i, i, f.P, n)
+			}
+		case 2:
+			for i, n := range nums {
+				id := f.MDID()
+				f.TailLine("!%d = !{i32 %d}", id, i)
+				f.TailLine("!%sn.%s = !{!%d}", f.P, n, id)
+			}
+		}
+	}}
+}
+
 func RefEntries() []Entry {
 	return []Entry{
 		unnamedEntry(),
 		nameShapesEntry(),
+		bigNumberNamesEntry(),
 		{Name: "ref-patterns", Build: func(f *Frag) {
 			p := f.P
 			switch f.N("form", 16) {
